@@ -470,6 +470,27 @@ def _filter_tree(node, tree, ctx):
     return out
 
 
+def populate(world, cfg, case):
+    """Give every leaf (except a few skipped ones) the first candidate value its field accepts."""
+    spec = world.spec
+    leaves = ops.spec_leaves(spec)
+    skip = {i % max(len(leaves), 1) for i in case.get("skip", [])}
+    for i, (path, nd) in enumerate(leaves):
+        if i in skip and not nd.get("req"):
+            continue
+        for raw in case["populate"].get(".".join(path), []):
+            value = specs.realize(raw)
+            if nd["kind"] == "schemalist" and isinstance(value, list):
+                value = specs.realize([ops.resolve_tree(nd, t, world.ctx, to_basic=False) if isinstance(t, dict) else t for t in value])
+            value = _filter_valid(nd, value, world.ctx)
+            try:
+                ops.set_via(cfg, path, value, "setattr")
+                break
+            except Exception:
+                continue
+    _sanitize(world, cfg)
+
+
 def _required_unset(world, cfg, node=None):
     """Is some required field unset/empty? (then the state validates only because an enclosing feature is off)"""
     cc = world.cc
